@@ -10,9 +10,16 @@ T = S.TICKS
 
 
 class Endpoint:
-    def __init__(self, role, keys, key, established=True, pinned=True):
+    def __init__(self, role, keys, key, established=True, pinned=True, seq0=None):
         self.role = role
         self.impl = S.Impl(role, keys, key=key, established=established, pinned=pinned)
+        self.seq0 = seq0
+        if seq0 is not None:
+            # start the datagram / message counters just below the ring wrap (the model side
+            # starts from the same values through unit conn_run_from)
+            from mpgameserver.connection import SeqNum
+            self.impl.conn.seq_sending = SeqNum(seq0[0])
+            self.impl.conn.seq_message = SeqNum(seq0[1])
         self.keys = keys
         self.key = key
         self.established = established
@@ -37,6 +44,9 @@ class Endpoint:
         """replay the logged history on the model; returns None or the first difference"""
         init = [1 if self.role == "server" else 0, (self.key if (self.established and self.key is not None) else -1),
                 2 if self.established else 4, self.now0 if self.established else -1]
+        if self.seq0 is not None:
+            unit_name = "conn_run_from"
+            init = init + [self.seq0[0], self.seq0[1]]
         reply = run.model.call(unit_name, [env, init, self.mevs, 1])
         for n, i in enumerate(self.index):
             a = self.itrace[n]
@@ -57,15 +67,15 @@ class Net:
     sizes (callable rng -> payload length), retry_modes, steps, heal_after (step index after
     which the network is perfect and no new sends happen), mtu, tick (ticks per step)"""
 
-    def __init__(self, run, rng, cfg, mtu=1500, key=7):
+    def __init__(self, run, rng, cfg, mtu=1500, key=7, established=True, seq0=None, pinned=True):
         self.run, self.rng, self.cfg = run, rng, cfg
         self.mtu = mtu
         self.keys = S.Keys()
         self.env = S.env_for_mtu(mtu)
         S.CLOCK.t = T * 100
         self.t = S.CLOCK.t
-        self.A = Endpoint("client", self.keys, key)     # client
-        self.B = Endpoint("server", self.keys, key)     # server-side connection
+        self.A = Endpoint("client", self.keys, key, established=established, seq0=seq0, pinned=pinned)   # client
+        self.B = Endpoint("server", self.keys, key, established=established, seq0=seq0)                  # server-side connection
         self.key = key
         self.flight = []           # (deliver_at, dst, bytes, dgram_index)
         self.emitted = {"client": [], "server": []}   # every datagram ever emitted (bytes, time)
